@@ -257,9 +257,11 @@ class Gen:
                 chars = chars[:k] + self.pick(["é", "grün", "straße", "€€", "日本", "ñ", "🙂", "Ж",
                                                  # characters that look like blanks or like nothing: they are characters of the string
                                                  "\u00a0", "10\u00a0kg", "\u202f", "\u3000", "\u00ad", "\u200b", "\u2003", "a\u00a0\u00a0b"]) + chars[k:]
-            if self.ok("lit.string.otherquote") and self.chance(0.15):
+            if self.ok("lit.wstring.otherquote" if kind == "lit.wstring" else "lit.string.otherquote") and self.chance(0.15):
                 # the other kind of quote mark is an ordinary character of a string, also first and last
-                self.atom("lit.string.otherquote")
+                # (two atoms: the renderer writes every string constant of an expression between single quotes, which only
+                # goes wrong for a double-byte string that contains one)
+                self.atom("lit.wstring.otherquote" if kind == "lit.wstring" else "lit.string.otherquote")
                 oq = "'" if kind == "lit.wstring" else '"'
                 chars = self.pick([oq + chars, chars + oq, oq + chars + oq, oq])
             if self.ok("lit.string.escape") and self.chance(0.25):
@@ -734,11 +736,11 @@ class Gen:
             elif k == "arrinit.repeat":
                 n, nv = self.dec_text(1, 9)
                 s, v = self.dec_text()
-                toks += [L(n), O("("), L(s, True), O(")", True)]
+                toks += [L(n), O("("), L(s), O(")")]
                 elems.append(["rep", nv, ["int", v, None]])
             else:
                 n, nv = self.dec_text(1, 9)
-                toks += [L(n), O("("), O(")", True)]
+                toks += [L(n), O("("), O(")")]
                 elems.append(["rep", nv, None])
         toks.append(O("]"))
         return toks, elems
@@ -1108,10 +1110,17 @@ class Gen:
             toks = [K("VAR")] + ([K(q[0])] if q[0] else [])
             n = self.name()
             loc = self.pick(["I", "Q", "M"])
-            t = self.pick(["BOOL", "INT", "MyType", "STRING"])
-            toks += [I(n), K("AT"), L("%" + loc + "*"), O(":"), type_tok(t), O(";"), K("END_VAR")]
+            t = self.pick(["BOOL", "INT", "MyType", "STRING", "WSTRING", "STRING[n]", "WSTRING[n]"])
+            if t.endswith("[n]"):
+                # a sized string of either width
+                ln = self.rng.randint(1, 80)
+                ttoks = [K(t[:-3]), O("["), L(str(ln)), O("]")]
+                inf = ["string", "String" if t == "STRING[n]" else "WString", ln, None]
+            else:
+                ttoks = [type_tok(t)]
+                inf = ["string", "String" if t == "STRING" else "WString", None, None] if t in ("STRING", "WSTRING") else ["t", tnf(t), None]
+            toks += [I(n), K("AT"), L("%" + loc + "*"), O(":")] + ttoks + [O(";"), K("END_VAR")]
             self.addrs.append([loc, "Unspecified", []])
-            inf = ["string", "String", None, None] if t == "STRING" else ["t", tnf(t), None]
             vars_.append(["var", ["at", n.lower(), loc, "Unspecified", []], "Var", q[1], inf])
             names_out.append(n)
             return toks, vars_, edges
@@ -1428,8 +1437,8 @@ class Gen:
                 ptoks = []
                 for i, pth in enumerate(path):
                     if i:
-                        ptoks.append(O(".", True))
-                    ptoks.append(I(pth, bool(i)))
+                        ptoks.append(O("."))
+                    ptoks.append(I(pth))
                 if ck == "varconfig.located":
                     at, anf = self.address()
                     t = self.pick(["INT", "BOOL"])
